@@ -39,7 +39,8 @@ def para(rx):
 dst = os.path.join(V, "seeded", pid + os.environ.get("SEED_TAG", ""))
 shutil.rmtree(dst, ignore_errors=True)
 os.makedirs(dst)
-shutil.copy(os.path.join(sd, "patch.diff"), dst)
+last = os.path.join(V, "out", "last-seed.patch")  # the change as seedcheck applied it to the current HEAD of /repo
+shutil.copy(last if os.path.exists(last) and os.path.getsize(last) > 0 else os.path.join(sd, "patch.diff"), os.path.join(dst, "patch.diff"))
 if os.path.isdir(os.path.join(sd, "demo")):
     shutil.copytree(os.path.join(sd, "demo"), os.path.join(dst, "demo"))
 if notes:
